@@ -203,6 +203,8 @@ class Shadow:
             flags = data.get(b'FLAGS')
             if flags is not None:
                 slot.flags = frozenset(canon_flag(f) for f in flags)
+                if cur is not None:
+                    cur.extra.setdefault('flag_fetched', []).append(slot)
             return
         if name == b'SEARCH':
             if cur is not None and cur.kind == 'search' \
@@ -262,12 +264,10 @@ class Shadow:
         flags = {f for f in flags if f in perm or
                  (star and not f.startswith(b'\\'))}
         op = act.get('op', '')
-        answered = {r.num for r in cmd.untagged if r.name == b'FETCH'
-                    and b'FLAGS' in r.data}
+        answered = {id(x) for x in cmd.extra.get('flag_fetched', ())}
+        live = {id(x) for x in self.slots}
         for sl in slots:
-            if sl not in self.slots:
-                continue
-            if self.slots.index(sl) + 1 in answered:
+            if id(sl) not in live or id(sl) in answered:
                 continue
             if sl.flags is None:
                 continue
